@@ -116,6 +116,53 @@ def c18(thorough):
     r = exhaust(map(seen.append, range(5)))
     if r is not None or seen != [0, 1, 2, 3, 4]:
         probs.append('exhaust: returned %r, consumed %r' % (r, seen))
+    # exhaust pulls everything whatever the elements are (truthy, falsy, None, exceptions as values)
+    for vals in ([0, 1, 2, 0, 3], [1, 1, 1], [0, '', None], [None, True, False, 'x', (), [0]], list(range(50))):
+        src = iter(vals)
+        r = exhaust(src)
+        left = list(src)
+        runs += 1
+        if r is not None or left:
+            probs.append('exhaust(iter(%r)): returned %r, left unconsumed %r' % (vals, r, left))
+    # predicates that are callable AND look iterable (types used as predicates)
+    for pred, data in ((list, [[], [1], '', 'ab', ()]), (str, ['', 'a', 0, None]), (tuple, [(), (1,), [2], []]),
+                       (dict, [{}, {'a': 1}])):
+        calls = []
+
+        def counted(x, _p=pred):
+            calls.append(x)
+            return _p(x)
+        runs += 1
+        try:
+            a, b = split(iter(data), pred)
+            ga, gb = list(a), list(b)
+        except BaseException as e:  # noqa
+            probs.append('split(%r, %s) raised %r' % (data, pred.__name__, e))
+            continue
+        et = [x for x in data if pred(x)]
+        ef = [x for x in data if not pred(x)]
+        if ga != et or gb != ef:
+            probs.append('split(%r, %s): %r / %r, expected %r / %r' % (data, pred.__name__, ga, gb, et, ef))
+
+    class AnyOf:
+        """a predicate object that is callable and iterable"""
+        def __init__(self, *ps):
+            self.ps = ps
+            self.n = 0
+
+        def __iter__(self):
+            return iter(self.ps)
+
+        def __call__(self, x):
+            self.n += 1
+            return any(p(x) for p in self.ps)
+    pr = AnyOf(lambda x: x < 0, lambda x: x > 4)
+    data = [5, -1, 2, 3, 9, 0, -7, 4]
+    a, b = split(iter(data), pr)
+    ga, gb = list(a), list(b)
+    runs += 1
+    if ga != [5, -1, 9, -7] or gb != [2, 3, 0, 4] or pr.n != len(data):
+        probs.append('split(%r, <callable and iterable predicate>): %r / %r, predicate called %d times' % (data, ga, gb, pr.n))
     return probs, runs
 
 
@@ -168,7 +215,12 @@ def c19(thorough):
                         continue
                     exp = {ek: ev}
                     outs = {}
-                    for shape, items in (('str', [k + sep + v]), ('pairs', [(k, v)]), ('mapping', {k: v})):
+                    import types as _types
+                    import collections as _collections
+                    for shape, items in (('str', [k + sep + v]), ('pairs', [(k, v)]), ('mapping', {k: v}),
+                                         ('mappingproxy', _types.MappingProxyType({k: v})),
+                                         ('userdict', _collections.UserDict({k: v})),
+                                         ('chainmap', _collections.ChainMap({k: v}))):
                         try:
                             outs[shape] = parse_to_dict(items, **kw)
                         except BaseException as e:  # noqa
